@@ -90,4 +90,10 @@ CHECKS = {
         "text": "Configurations generated from a grammar of the documented tree (nested lists in lists, every mechanism type/option) are loaded by config.NewConfiguration from a file, from per-leaf environment variables in several orders, and from random splits with conflicting assignments; canonicalised results must be equal, the environment must win exactly on conflicting leaves, defaults elsewhere; 234 table entries (each mechanism type, auth type, option) are given once by file and once by environment: usable(file) <=> usable(env).",
         "note": "Scalars are generated with schema types; free-form map keys lower case, no `$` in values. Undocumented spellings are outside the quantifier. Three open known findings (schema applied to the file before merging; http_message_signatures missing in schema; metadata_endpoint string form).",
     },
+    "C08": {
+        "level": "exploration",
+        "technique": "runtime monitoring: metamorphic oracle (re-encodings of unreserved octets must not change rule/captures/decision) + encoded-slash policy assertions on the three assembled services and the upstream echo server",
+        "text": "A rule set mixing literal, single-wildcard, free-wildcard and path_params expressions for the same paths under each encoded-slash setting plus a default rule runs in the decision, proxy and Envoy gRPC services; every base path is sent canonically and in none/all/random re-encodings of its unreserved octets (either hex case) and with %2F / %2f inserted at several positions of the last segment; matched rule, echoed captures, accept/deny and the request line received by the upstream are compared with the canonical spelling and with the per-setting rules of the statement. Held on the spellings executed.",
+        "note": "The Envoy CheckRequest carries the raw path in `path` and the query in `query` (as the repository's tests do). Which rule an encoded-slash path should match is taken from the canonical path's rule family.",
+    },
 }
